@@ -769,6 +769,81 @@ def ob_operator_typing(run, mir, rp, fam):
     e2.prove(run, ob, exm, [], conj(shape_claims), {}, replay)
 
 
+def range_family(rp):
+    """Operands of a range / slice end up in Python's range() / slice(): only an Int will do, and every operand is looked at."""
+    f = e2.Family(rp)
+    f.add("range-float-variable-from", "def a: Float := 1.5\nfor i in a .. 3 do print(i)", "reject")
+    f.add("range-float-variable-to", "def a: Float := 1.5\nfor i in 0 .. a do print(i)", "reject")
+    f.add("range-float-variable-step", "def a: Float := 2.0\nfor i in 0 .. 9 .. a do print(i)", "reject")
+    f.add("range-nullable-variable-to", "def a: Int? := None\nfor i in 0 .. a do print(i)", "reject")
+    f.add("range-float-literal-from", "for i in 1.5 .. 3 do print(i)", "reject")
+    f.add("range-str-variable-to", "def a: Str := \"s\"\nfor i in 0 .. a do print(i)", "reject")
+    f.add("range-undefined-step", "for i in 0 .. 9 .. zz do print(i)", "reject")
+    f.add("range-str-call-step", "def g() -> Str => \"s\"\nfor i in 0 .. 9 .. g() do print(i)", "reject")
+    f.add("slice-float-variable-from", "def xs := [1, 2, 3]\ndef a: Float := 1.0\nprint(xs[a :: 2])", "reject")
+    f.add("slice-undefined-step", "def xs := [1, 2, 3]\nprint(xs[0 :: 2 :: zz])", "reject")
+    f.add("range-int-variables", "def a: Int := 2\ndef b: Int := 8\ndef c: Int := 2\nfor i in a .. b .. c do print(i)", "accept")
+    f.add("range-int-call-step", "def g() -> Int => 2\nfor i in 0 .. 9 .. g() do print(i)", "accept")
+    f.add("range-inclusive-int-literals", "for i in 0 ..= 3 do print(i)", "accept")
+    f.add("slice-int-operands", "def xs := [1, 2, 3]\ndef a: Int := 0\nprint(xs[a :: 2])", "accept")
+    return f
+
+
+def ob_range_operands(run, mir, rp, fam):
+    ob = run.ob("range-operands-are-ints", "E2", "gen_range (ranges `a .. b .. s`, `a ..= b` and slices): on every successful path each operand - from, to and "
+                "the step when there is one - is required to be an Int (constraint parent = Int, child = the operand: a Float or Int? operand is "
+                "refused, Python's range() / slice() take nothing else) and is itself generated in the incoming environment (so an undefined name or a "
+                "wrongly typed call in any operand is seen)", ["gen_range"])
+    fn = e2.find1(mir, file=OP_RS, name="gen_range")
+    _rel, lay = ckern.node_enum()
+    claims, n_ok, free = [], 0, {}
+    ex = Exec(mir, max_paths=20000)
+    for kind, word in (("Range", "range"), ("Slice", "slice")):
+        st = State()
+        mk = lambda n: Ref(ex.new_cell(st, ckern.mk_ast(f"{kind}.{n}", opq(f"{kind}.{n}.node", "Node"))[0]))
+        frm, to, stp = mk("from"), mk("to"), mk("step")
+        step, some = sym_option(f"{kind}.step", stp, "Option<Box<AST>>")
+        free[f"{kind} has a step"] = some
+        vals = {"from": frm, "to": to, "step": step, "inclusive": z3.Bool(f"{kind}.inclusive")}
+        if sorted(vals) != sorted(lay[kind]):
+            raise Unsupported(f"Node::{kind} fields changed: {lay[kind]}")
+        ast, _ = ckern.mk_ast("ast", ckern.mk_node(kind, {k: vals[k] for k in lay[kind]}))
+        env, ctx, constr = ckern.refs(ex, st, "env", "ctx", "constr")
+        ends = e2.run_kernel(run, ex, fn, [Ref(ex.new_cell(st, ast)), env, ctx, constr, StrC(word)], st)
+        for p in ends:
+            if result_kind(p) != "Ok":
+                continue
+            n_ok += 1
+            s = p.state
+            adds, gens, news = calls(p, "ConstrBuilder::add"), calls(p, "generate"), calls(p, "Expected::new")
+            ints = []
+            for nw in news:
+                second = nw["args"][1]
+                second = ex.read_ref(s, second) if isinstance(second, Ref) else second
+                if isinstance(second, Agg) and second.variant == "Type":
+                    src = [e_ for e_ in p.events if e_["name"].endswith("Name.From::from") and z3.eq(ex.to_val(s, e_["ret"]), ex.to_val(s, second.fields[0]))]
+                    if src and isinstance(src[0]["args"][0], StrC) and src[0]["args"][0].s == "Int":
+                        ints.append(ex.to_val(s, nw["ret"]))
+            cl = []
+            for x, cond in ((frm, z3.BoolVal(True)), (to, z3.BoolVal(True)), (stp, some)):
+                xe = ex.to_val(s, ex.app("Expected.From::from", [x], "Expected", s))
+                typed = disj([z3.And(a["argvals"][2] == i_, a["argvals"][3] == xe, a["argvals"][4] == ex.to_val(s, env)) for a in adds for i_ in ints])
+                seen = disj([z3.And(g["argvals"][0] == ex.to_val(s, x), g["argvals"][1] == ex.to_val(s, env)) for g in gens])
+                cl.append(z3.Implies(cond, z3.And(typed, seen)))
+            claims.append(z3.Implies(conj(p.cond), conj(cl)))
+    if n_ok < 4:
+        raise Unsupported(f"{n_ok} Ok paths")
+    rf = range_family(rp)
+    e2.prove(run, ob, ex, [], conj(claims), free, rf.as_replay("range-operands:"))
+    if ob.status == "discharged":
+        k, bad = rf.run()
+        run.validated += k
+        if bad:
+            ob.status = "pending"
+            ob.inconclusive(f"range family disagrees although the kernel is as specified: {bad[:2]}")
+    run.samples.append({"obligation": ob.id, "ok_paths": n_ok})
+
+
 FLOW_RS = ckern.GEN + "control_flow.rs"
 
 
@@ -1713,7 +1788,7 @@ def run(run):
                "outside: that a violation is still caught in every nesting context (branch forking in ConstrBuilder); the accepted-exactly-when direction for whole programs")
     run.trusted += ["rustc nightly MIR dump", "mirsym MIR semantics", "z3"]
     run.bounds = {"paths": "all paths of each kernel with loops cut at their headers"}
-    for f in (ob_call_parameters, ob_argument_signature, ob_call_result, ob_compound_assignment, ob_method_parameters, ob_fn_value_arguments, ob_access_direction, ob_shadow_mapping, ob_operator_typing, ob_flow_constraints, ob_return, ob_id_from_var, ob_initialiser_scope, ob_fun_body, ob_fun_body_scope, ob_branch_scope, ob_arm_scope, ob_unify_type):
+    for f in (ob_call_parameters, ob_argument_signature, ob_call_result, ob_compound_assignment, ob_method_parameters, ob_fn_value_arguments, ob_access_direction, ob_shadow_mapping, ob_operator_typing, ob_range_operands, ob_flow_constraints, ob_return, ob_id_from_var, ob_initialiser_scope, ob_fun_body, ob_fun_body_scope, ob_branch_scope, ob_arm_scope, ob_unify_type):
         try:
             f(run, mir, rp, fam)
         except Unsupported as e:
